@@ -295,6 +295,16 @@ func c46One(r *rng, id int, forceKind int) c46Case {
 	switch kind {
 	case 1:
 		// damage bytes inside record bodies only; sizes stay valid
+		if r.coin(1, 3) {
+			// an empty record between two records: decodes, but Put refuses it
+			k := r.intn(len(bodies) + 1)
+			at := 4
+			for i := 0; i < k; i++ {
+				at += 4 + len(bodies[i])
+			}
+			stream = append(stream[:at:at], append([]byte{0, 0, 0, 0}, stream[at:]...)...)
+			bodies = flatBodies(stream)
+		}
 		off := 4
 		for _, b := range bodies {
 			off += 4
